@@ -183,6 +183,10 @@ class C12(OptEngineBase):
             v["fixed"] = v["id"] in fixed
         meta["fixed_class"] = cls
         n_calls = rng.choice([1, 2, 2, 3, 3, 4, 6])
+        long_hist = rng.random() < 0.02 and len(verts) <= 8
+        if long_hist:
+            n_calls = rng.randint(10, 18)  # a long session: something that only happens on the N-th call
+            meta["long_history"] = True
         ops = []
         for k in range(n_calls):
             if rng.random() < 0.2:
@@ -206,7 +210,7 @@ class C12(OptEngineBase):
             small = rng.random() < 0.5
             ops.append({
                 "op": "optimize",
-                "max_iter": rng.randint(1, 4) if small else rng.randint(5, 30),
+                "max_iter": rng.randint(1, 4) if (small or long_hist) else rng.randint(5, 30),
                 "tol": rng.choice([0.0, 0.0, 1e-12, 1e-9, 1e-6, 1e-4, 1e-4, 1e-3, 1e-2, 1e-1]),
                 "fix_first_pose": rng.random() < 0.35,
                 "verbose": rng.random() < 0.5,
